@@ -17,6 +17,10 @@ const (
 
 	FName   = "name"
 	FNick   = "nick"
+	// the stored keys of nick and boss differ from the names of their symbols (AddSymbolWithKey / AddFkSymbolWithKey): field
+	// checkers and raw corruption talk about keys, queries and indexes about symbols
+	KNick = "nickname"
+	KBoss = "bossId"
 	FRoles  = "roles"
 	FBoss   = "boss"
 	FTeam   = "team"
@@ -84,9 +88,9 @@ func (s personStrategy) NewEntity() *Person { return &Person{} }
 func (s personStrategy) FillEntity(e *Person, b *boltz.TypedBucket) {
 	e.LoadBaseValues(b)
 	e.Name = b.GetStringWithDefault(FName, "")
-	e.Nick = b.GetString(FNick)
+	e.Nick = b.GetString(KNick)
 	e.Roles = b.GetStringList(FRoles)
-	e.Boss = b.GetString(FBoss)
+	e.Boss = b.GetString(KBoss)
 	e.Team = b.GetString(FTeam)
 	e.Teams = b.GetStringList(FTeams)
 }
@@ -97,9 +101,9 @@ func (s personStrategy) PersistEntity(e *Person, ctx *boltz.PersistContext) {
 	if e.Labels != nil {
 		ctx.Bucket.GetOrCreatePath("meta").PutMap("labels", e.Labels, ctx.FieldChecker, true)
 	}
-	ctx.SetStringP(FNick, e.Nick)
+	ctx.SetStringP(KNick, e.Nick)
 	ctx.SetStringList(FRoles, e.Roles)
-	ctx.SetStringP(FBoss, e.Boss)
+	ctx.SetStringP(KBoss, e.Boss)
 	ctx.SetStringP(FTeam, e.Team)
 	if s.cfg.LinksViaEntity {
 		ctx.SetLinkedIds(FTeams, e.Teams)
@@ -284,7 +288,7 @@ func New(cfg Config) *Stores {
 	people.AddExtEntitySymbols()
 	symName := people.AddSymbol(FName, ast.NodeTypeString)
 	people.IdxName = people.AddUniqueIndex(symName)
-	symNick := people.AddSymbol(FNick, ast.NodeTypeString)
+	symNick := people.AddSymbolWithKey(FNick, ast.NodeTypeString, KNick)
 	people.IdxNick = people.AddNullableUniqueIndex(symNick)
 	people.SymRoles = people.AddSetSymbol(FRoles, ast.NodeTypeString)
 	people.IdxRoles = people.AddSetIndex(people.SymRoles)
@@ -301,7 +305,7 @@ func New(cfg Config) *Stores {
 		}
 	})
 
-	symBoss := people.AddFkSymbol(FBoss, people)
+	symBoss := people.AddFkSymbolWithKey(FBoss, KBoss, people)
 	people.SymRep = people.AddFkSetSymbol(FRep, people)
 	switch cfg.BossMode {
 	case "off", "":
